@@ -443,6 +443,35 @@ enum Mark {
     None,
 }
 
+fn canary_key(pfx: &str) -> Vec<u8> {
+    format!("{}-canary", pfx).into_bytes()
+}
+
+fn big_value(pfx: &str) -> Vec<u8> {
+    let mut v = vec![b'y'; 2500];
+    v.extend(wire::store(op::SET, &canary_key(pfx), b"from-a-dead-connection", 0, 0, 0x0dead, 0).encode());
+    v.extend(wire::simple(op::NOOP, 0x0dead).encode());
+    v.resize(6000, b'y');
+    v
+}
+
+/// cut offsets worth a scenario: every offset of small frames; for large bodies the edges and a sample
+fn cut_offsets(reqs: &[Req], dense: bool) -> Vec<usize> {
+    let mut out = vec![0usize];
+    let mut start = 0usize;
+    for r in reqs {
+        let l = 24 + r.frame.body.len();
+        for d in 1..=l {
+            let edge = d <= 40 || d + 40 >= l;
+            if l <= 500 || edge || d % (if dense { 7 } else { 61 }) == 0 {
+                out.push(start + d);
+            }
+        }
+        start += l;
+    }
+    out
+}
+
 fn build_stream(pfx: &str, variant: u64) -> (Vec<Req>, Vec<u8>, Vec<u8>) {
     let log = format!("{}-log", pfx).into_bytes();
     let cnt = format!("{}-cnt", pfx).into_bytes();
@@ -456,10 +485,15 @@ fn build_stream(pfx: &str, variant: u64) -> (Vec<Req>, Vec<u8>, Vec<u8>) {
         Req { frame: wire::get(op::GETK, &log, 5), mark: Mark::None, loud: true },
         Req { frame: wire::store(op::SETQ, &k(6), &vec![b'y'; 300], 0, 0, 6, 0), mark: Mark::SetKey(k(6)), loud: false },
         Req { frame: wire::counter(op::INCRQ, &cnt, 10, 100, 0, 7, 0), mark: Mark::Incr(10), loud: false },
-        // larger than the item limit of the fault servers (2048): refused with 0x03, leaves no mark, and a
+        // larger than the item limit of the fault servers (8192): refused with 0x03, leaves no mark, and a
         // cut inside its body puts the server into its discard loop
-        Req { frame: wire::store(op::SET, &k(9), &vec![b'z'; 2600], 0, 0, 8, 0), mark: Mark::None, loud: true },
+        Req { frame: wire::store(op::SET, &k(9), &vec![b'z'; 9000], 0, 0, 8, 0), mark: Mark::None, loud: true },
         Req { frame: wire::concat(op::APPEND, &log, b"e", 9, 0), mark: Mark::Append(b'e'), loud: true },
+        // a big value within the limit (the connection's read buffer has to grow for it); part of the value
+        // is itself a well-formed request that stores a canary key: a cut inside this body leaves bytes
+        // behind that must die with the connection
+        Req { frame: wire::store(op::SET, &k(10), &big_value(pfx), 0, 0, 10, 0), mark: Mark::SetKey(k(10)), loud: true },
+        Req { frame: wire::concat(op::APPENDQ, &log, b"f", 11, 0), mark: Mark::Append(b'f'), loud: false },
     ];
     // variants reorder / drop a few so that several streams are covered
     match variant % 4 {
@@ -508,7 +542,7 @@ pub fn run_c18(ctx: &Ctx) -> i32 {
         let variant = (ctx.seed + var) % 4;
         let (reqs, _, _) = build_stream("x", variant);
         let len: usize = reqs.iter().map(|r| 24 + r.frame.body.len()).sum();
-        for o in 0..=len {
+        for o in cut_offsets(&reqs, ctx.thorough()) {
             for f in [Fault::Close, Fault::HalfClose, Fault::Reset] {
                 scen.push((variant, o, f));
             }
@@ -518,7 +552,7 @@ pub fn run_c18(ctx: &Ctx) -> i32 {
                 scen.push((variant, j, f));
             }
         }
-        let step = if ctx.thorough() { 9 } else { len / 16 + 1 };
+        let step = if ctx.thorough() { 37 } else { len / 16 + 1 };
         for o in (0..=len).step_by(step) {
             scen.push((variant, o, Fault::Silence));
         }
@@ -526,8 +560,8 @@ pub fn run_c18(ctx: &Ctx) -> i32 {
         let mut off = 0;
         for r in &reqs {
             let l = 24 + r.frame.body.len();
-            if r.frame.body.len() > 2048 {
-                for d in [24usize, 25, 24 + 1000, l - 1] {
+            if r.frame.body.len() > 4096 {
+                for d in [24usize, 25, 24 + 1000, 24 + 4500, l - 1] {
                     scen.push((variant, off + d, Fault::Silence));
                 }
             }
@@ -541,7 +575,7 @@ pub fn run_c18(ctx: &Ctx) -> i32 {
             let (next, shared, scen) = (&next, &shared, &scen);
             s.spawn(move || {
                 let flavour = if w % 2 == 1 && ctx.thorough() { Some(2) } else { None };
-                let srv = match Server::start(SrvCfg { idle_s: 1, workers: flavour, conn_limit: 64, item_limit: 2048, ..Default::default() }) {
+                let srv = match Server::start(SrvCfg { idle_s: 1, workers: flavour, conn_limit: 64, item_limit: 8192, ..Default::default() }) {
                     Ok(s) => s,
                     Err(_) => return,
                 };
@@ -735,6 +769,10 @@ pub fn run_c18(ctx: &Ctx) -> i32 {
                                 ),
                             ));
                         }
+                    }
+                    // bytes inside a request body never become requests, on this connection or a later one
+                    if ask(&mut obs, &wire::get(op::GET, &canary_key(&pfx), 63)).map(|r| r.status == st::OK).unwrap_or(false) {
+                        viols.push(Viol::new(&["C18", "C09"], "body-bytes-executed", format!("{:?} at offset {}: the canary request embedded in the big value's body was executed", fault, off)));
                     }
                     // responses on the faulty connection where they can be read reliably
                     if viols.is_empty() && matches!(fault, Fault::HalfClose | Fault::Silence | Fault::CorruptMagic | Fault::CorruptDataType | Fault::Garbage) && faulty_end != End::Reset {
